@@ -20,13 +20,14 @@ NOT_APPLICABLE = {}
 
 PROPS = {
     "C01": {
-        "claim": "Decides, on every CFG path of every function body of the crate (any history, by induction over calls), the structural rules GC1, GC2, GC3, GC5, GC7a, GC9; together with the hand argument of DESIGN §5.0 (rules ⇒ invariants I1–I3 ⇒ statement) this is the whole statement under the property's preconditions. Static, no execution; no bound on history length, ids, N or capacity.",
+        "claim": "Decides, on every CFG path of every function body of the crate (any history, by induction over calls), the structural rules GC1, GC2, GC3, GC4, GC5, GC7a, GC9; together with the hand argument of DESIGN §5.0 (rules ⇒ invariants I1–I3 ⇒ statement) this is the whole statement under the property's preconditions. Static, no execution; no bound on history length, ids, N or capacity.",
         "note": "Trusted: rustc front end + engine's reading of MIR; container crates at their locked versions as audited (DESIGN §3); the hand argument rules ⇒ invariants ⇒ statement. merge() on non-tree input is exempt (GC1 scoped exemption).",
         "technique": 'MIR who-may-write + guard/dominance rules (custom rustc driver)',
-        "rules": [("GC1", G.gc1), ("GC2", G.gc2), ("GC3", G.gc3), ("GC5", G.gc5),
+        "rules": [("GC1", G.gc1), ("GC2", G.gc2), ("GC3", G.gc3), ("GC4", G.gc4), ("GC5", G.gc5),
                   ("GC7a", functools.partial(G.gc7, part="a")), ("GC9", G.gc9)],
         "explanation": "GC safety via invariants I1–I3: removal sites only in data() (GC1), guarded by first read ∧ grouped ∧ "
-                       "counter==0 over the reader's member list (GC2), read arms (GC3), membership pairing in bind (GC5), "
+                       "counter==0 over the reader's member list (GC2), read arms (GC3), counter == number of unread data (GC4, needed for "
+                       "'no removed vertex holds an unread datum'), membership pairing in bind (GC5), "
                        "add() never touches a present vertex (GC7a), no slot removal (GC9); all CFG paths of all bodies.",
         "trusted": [RUSTC, CONTAINERS, HAND],
         "assumptions": ["capacity limits and documented preconditions of the property", "merge restricted to trees (GC1 scoped exemption)"],
@@ -56,10 +57,10 @@ PROPS = {
         "claim": "Decides GC6a–d and GC5: a new group only takes a slot tested empty by an unrestricted scan of all slots, a destroyed group's list is cleared on every returning path of the same call, the constructor installs non-empty sentinels at 0 and 1 and zeroed tables, and no other function touches the tables; with I1–I3 a slot is free iff its list is empty, for histories of any length.",
         "note": "Trusted: as C01; 'fewer than 14 groups alive' is the precondition under which the search succeeds.",
         "technique": 'MIR who-may-call + guard + post-dominance rules on the slot table',
-        "rules": [("GC5", G.gc5), ("GC6", functools.partial(G.gc6, parts="abcd"))],
+        "rules": [("GC5", G.gc5), ("GC6", functools.partial(G.gc6, parts="abcd")), ("GC2", G.gc2), ("GC4", G.gc4)],
         "explanation": "slot discipline: new groups take a slot checked empty over an unrestricted scan (GC6a), destruction clears "
                        "the list on all paths (GC6b), sentinels and zeroed tables in the constructor (GC6c), nobody else touches "
-                       "the tables (GC6d), membership pairing (GC5).",
+                       "the tables (GC6d), membership pairing (GC5); GC2/GC4 give I2 (a destroyed group's counter is 0 again).",
         "trusted": [RUSTC, CONTAINERS, HAND],
         "assumptions": ["fewer than 14 groups alive is the precondition under which the search succeeds"],
     },
